@@ -24,6 +24,8 @@ POOL = c09.POOL + [
     "{a => $, b => {c => $.len()}}.b.c", "$.toSet().toList().orderBy($)", "$.selectMany([$, $ * 10]).distinct()", "switch($.len() > 2 => 'big', true => 'small')",
     "$.any($ > 2) and not $.all($ > 2)", "$.takeWhile($ < 3).concat($.skipWhile($ < 3))", "coalesce(null, $.first()) ?? 0" if False else "coalesce(null, $.first())",
     "let(f => 2) -> $.select($ * $f).sum()", "$.where($ mod 2 = 0).select({v => $}).select($.v)",
+    # helpers the host defined once in the shared context (yaql-level functions: def())
+    "addTen($.sum())", "$.select(sq($)).sum() + addTen($.len())", "$.select(addTen($)).where($ > 11).len()",
     # values of the shared context used where they must be hashed
     "[$fz.a, $fz.b].distinct().len()", "[$fz.a, $fz.b, $fz.a].toSet().len() + $.len()", "$.select($fz.b).distinct().len()",
 ]
@@ -133,7 +135,7 @@ def write_point_preemption(rep, rng, quick, baseline):
         shared = yaql.create_context()
         shared['cfg'] = {'k': [1, 2, 3]}
         shared['fz'] = yutils.convert_input_data(copy.deepcopy(FZ))
-        shared = shared.create_child_context()
+        shared = with_helpers(shared).create_child_context()
         shared['lim'] = 2
         sa = engine(POOL[i])
         sb = sa if i == j else engine(POOL[j])
@@ -188,6 +190,19 @@ def write_point_preemption(rep, rng, quick, baseline):
         for cls, orig in saved:
             cls.__setattr__ = orig
     return runs
+
+
+HELPERS = "def(addTen, $ + 10) -> def(sq, $ * $)"
+
+
+def with_helpers(ctx):
+    """the context a host gets by defining yaql-level helper functions once on top of its prepared context"""
+    import yaql
+    c = yaql.YaqlFactory().create()(HELPERS).evaluate(context=ctx)
+    from yaql.language import contexts
+    if not isinstance(c, contexts.ContextBase):
+        raise RuntimeError('def() did not return a context: %r' % (c,))
+    return c
 
 
 def outcome(fn):
@@ -246,7 +261,7 @@ def run(rep, tier, seed, keep=False):
         shared = yaql.create_context()
         shared['cfg'] = {'k': [1, 2, 3]}
         shared['fz'] = yutils.convert_input_data(copy.deepcopy(FZ))       # a document the host prepared once (as create_context(data=...) does)
-        shared = shared.create_child_context()
+        shared = with_helpers(shared).create_child_context()
         shared['lim'] = 2
         chain0 = c09.snap_chain(shared)
         stmts = [engine(t) for t in POOL]
@@ -259,7 +274,7 @@ def run(rep, tier, seed, keep=False):
                 alone = yaql.create_context()
                 alone['cfg'] = {'k': [1, 2, 3]}
                 alone['fz'] = yutils.convert_input_data(copy.deepcopy(FZ))
-                alone = alone.create_child_context()
+                alone = with_helpers(alone).create_child_context()
                 alone['lim'] = 2
                 base[k] = outcome(lambda: yaql.YaqlFactory().create()(POOL[i]).evaluate(data=copy.deepcopy(d), context=alone.create_child_context()))
             return base[k]
